@@ -159,7 +159,7 @@ Proof.
   revert dl. induction fuel as [|f IH]; intros dl; cbn [wait_repl_start]; [exact I|].
   apply allcalls_bind; [unfold now_; split; [exact I|intros; exact I]|]. intros t. destruct (_ <? dl); [|exact I].
   apply allcalls_bind; [apply ac_replica_status; reflexivity|]. intros [st e]. cbn [fst snd].
-  destruct e; [apply IH|]. destruct st as [rs|]; [|exact I]. destruct (rs_io rs && rs_sql rs); [exact I|].
+  destruct e; [apply IH|]. destruct st as [rs|]; [|split; [exact I|]; intros _; apply IH]. destruct (rs_io rs && rs_sql rs); [exact I|].
   split; [exact I|]. intros _. apply IH.
 Qed.
 
@@ -261,21 +261,16 @@ Qed.
    (after the repair bee82ca the blind path resolves its source too): every source it re-points to comes
    from the resolver, which never returns the replica itself *)
 Definition not_self_repoint (s : site) : Prop := s <> 2079.
-Lemma pi_wait_repl_start f h d : panics_in not_self_repoint (wait_repl_start f h d).
+Lemma np_wait_repl_start f h d : nopanic (wait_repl_start f h d).
 Proof.
   induction f as [|f IH]; cbn [wait_repl_start]; [exact I|].
-  unfold now_, replica_status. cbn [bind panics_in]. intros r.
-  assert (G : forall t : Z, panics_in not_self_repoint
-     (if t <? d then s <- Do 2102 (Sql h SShowReplica) (fun r0 => match r0 with RRepl o => Ret (o, None) | RErr e => Ret (None, Some e) | _ => Ret (None, Some EOther) end) ;;
-        match snd s with Some _ => wait_repl_start f h d | None => match fst s with None => Panic 2107
-          | Some rs => if rs_io rs && rs_sql rs then Ret tt else Do 2111 (Sleep sec) (fun _ => wait_repl_start f h d) end end
-      else Ret tt)).
-  { intros t. destruct (t <? d); [|exact I]. cbn [bind panics_in]. intros r0.
-    destruct r0; cbn [bind snd fst]; try exact IH.
-    destruct o as [rs|]; [|cbn [panics_in]; unfold not_self_repoint; discriminate].
-    destruct (rs_io rs && rs_sql rs); [exact I|]. cbn [panics_in]. intros _. exact IH. }
-  destruct r; cbn [bind]; apply G.
+  apply nopanic_bind; [unfold now_; cbn [nopanic]; intros r; destruct r; exact I|]. intros t. destruct (t <? d); [|exact I].
+  apply nopanic_bind; [unfold replica_status; cbn [nopanic]; intros r; destruct r; exact I|]. intros [st e]. cbn [fst snd].
+  destruct e; [exact IH|]. destruct st as [rs|]; [|cbn [nopanic]; intros _; exact IH].
+  destruct (rs_io rs && rs_sql rs); [exact I|]. cbn [nopanic]. intros _. exact IH.
 Qed.
+Lemma pi_wait_repl_start f h d : panics_in not_self_repoint (wait_repl_start f h d).
+Proof. apply nopanic_panics_in. apply np_wait_repl_start. Qed.
 Lemma pi_exec Q s h st : panics_in Q (exec_ s h st).
 Proof. unfold exec_. cbn [panics_in]. intros r. destruct r; exact I. Qed.
 Lemma pi_change_master cfg h m : h <> m -> panics_in not_self_repoint (perform_change_master cfg h m).
@@ -313,7 +308,7 @@ Proof.
     { destruct (ns_repl_running ns); [|exact I]. apply panics_in_bind; [apply pi_exec|intros; exact I]. }
     intros stopped. destruct (negb stopped); [exact I|].
     apply panics_in_bind; [unfold replica_status; cbn [panics_in]; intros r; destruct r; exact I|]. intros [my e]. cbn [fst snd].
-    destruct e; [exact I|]. destruct my as [myrs|]; [|cbn [panics_in]; unfold not_self_repoint; discriminate].
+    destruct e; [exact I|]. destruct my as [myrs|]; [|exact I].
     destruct (assoc cand (re_state env)) as [cst|]; [|cbn [panics_in]; unfold not_self_repoint; discriminate].
     destruct (node_gtid cst) as [cg|]; [|cbn [panics_in]; unfold not_self_repoint; discriminate].
     destruct (slave_ahead _ _); [exact I|]. destruct (split_brained _ _ _); [cbn [panics_in]; intros; exact I|].
